@@ -240,6 +240,24 @@ def run(rep: common.Report, tier: str, seed: int, replay=None) -> int:
                     rep.violation(f"building a composite raised {type(e).__name__}: {e}"[:160],
                                   {"l": repr(l)[:80], "r": repr(r)[:80], "op": o.__name__})
                 rep.count(1)
+    # keyword arguments of the underlying functions are part of the structure and of the value
+    import tdgl as _t
+    Pa, Pb, Pc = _t.Parameter(f2, a=1.0), _t.Parameter(f2, a=2.0), _t.Parameter(f2, a=1.0)
+    Ta, Tb = _t.Parameter(ft, time_dependent=True, c=0.5), _t.Parameter(ft, time_dependent=True, c=0.25)
+    kw_checks = [
+        ("equal keyword arguments compare equal", Pa == Pc and not (Pa != Pc)),
+        ("different keyword arguments compare unequal", Pa != Pb and not (Pa == Pb)),
+        ("composites over equal leaves compare equal", (Pa * 2 + Pc) == (Pc * 2 + Pa)),
+        ("composites over leaves with different keyword arguments compare unequal", (Pa * 2) != (Pb * 2) and ((Pa + 1) ** 2) != ((Pb + 1) ** 2)),
+        ("time-dependent leaves with different keyword arguments compare unequal", Ta != Tb and (Ta * Pa) != (Tb * Pa)),
+        ("keyword arguments reach the function", float(Pb(X, Y)) == f2(X, Y, a=2.0) and float((Pb - Pa)(X, Y)) == f2(X, Y, a=2.0) - f2(X, Y, a=1.0)),
+        ("keyword arguments reach a time-dependent function two levels down",
+         float(((Tb * 2) + Pa)(X, Y, t=T)) == ft(X, Y, t=T, c=0.25) * 2 + f2(X, Y, a=1.0) and ((Tb * 2) + Pa).time_dependent),
+    ]
+    for what, ok in kw_checks:
+        if not ok:
+            rep.violation("keyword arguments of parameters: " + what + " - violated", {"check": what})
+        rep.count(1)
     # handed to the solver like plain parameters
     solver_acceptance(rep, rng)
 
